@@ -39,7 +39,8 @@ prop('C18', 'other',
      'Per block class: the declared equations (read back from a host Model after the real name-spacing) imply the documented '
      'transfer function identity Y*den(s) = num(s)*U for ALL parameter values, all s and all inputs (z3 QF_NRA); bypass flags '
      'come from executing the real LessThan/DeadBand.check_var on symbolic parameters; steady state: the declared initial '
-     'values zero every equation for every constant input; limited variants inside limits reduce to the unlimited block.',
+     'values zero every equation for every constant input (PI/PID blocks also with symbolic reference and initial integrator value); '
+     'limited variants inside limits reduce to the unlimited block; one-sided limit options reach every limiter of the block.',
      'admissible-parameter preconditions per block are listed in the evidence; limiter flags fixed in-range; freeze inputs 0; '
      'time response outside.',
      'SMT (z3 nonlinear real arithmetic) Laplace-domain identities over block equations', 'DESIGN.md 3/C18')
@@ -60,7 +61,7 @@ prop('C06', 'model_checking',
      'the time-grid invariant; z3 decides per path that the invariant is re-established, an event is dispatched iff the accepted '
      'time equals the pending switch time (once, to the owning models), no step crosses a pending event or tf, the accepted '
      'stamp is stored once, progress is strict, exit without bust implies t == tf and success. Base case after init; real '
-     'store_switch_times, TimerParam.is_time and Toggle/Fault/Alter callbacks on symbolic times. Thorough adds the binary64 '
+     'store_switch_times (rounding modelled exactly), TimerParam.is_time and Toggle/Fault/Alter callbacks on symbolic times. Thorough adds the binary64 '
      'exact-landing lemma (z3 FloatingPoint).',
      'time is a real number in the inductive step (float landing is a separate lemma for 0<=t<=u<=2t); 3 pending events, one '
      'iteration per query; itm_step/store/progress bar stubbed (listed in evidence); an event exactly at t0 is a listed known finding.',
@@ -92,7 +93,9 @@ prop('C11', 'other',
      'ratio and each flagged parameter gets exactly its own with v = vin*k; real Model.alter/set and GroupBase.alter sequences with '
      'symbolic values and factors keep v = vin*k for both attr modes, export the altered input value, leave other devices untouched, '
      'reach dae.Tf and the mass matrix for time constants; _p_restore gives v = vin; structural pass over every flagged parameter of '
-     'every shipped model.',
+     'every shipped model; real calc_pu_coeff on real stock models (Line, Shunt, GENCLS, GENROU, PQ, PV, Slack) against a table of '
+     'physical kinds; real NumParam.add on a symbolic value (a value inside the declared domain is stored unchanged); export of '
+     'converted and input-base values.',
      'bases > 0; sequences <= 3 calls on 2 devices; xlsx/json writers (file I/O) outside; kvxopt mass matrix stubbed in exploration.',
      'symbolic execution of real conversion/alteration code + z3 identities', 'DESIGN.md 3/C11')
 
@@ -118,7 +121,8 @@ prop('C04', 'other',
 
 prop('C16', 'other',
      'PARTIAL. Real SuiteSparseSolver.solve and SpSolve.solve with the C-library calls replaced by a typestate model (symbolic '
-     'factor remembers its pattern, numeric factor its matrix version; stale pattern => ValueError, singular => ArithmeticError with '
+     'factor remembers its pattern, numeric factor its matrix version; a stale pattern is undefined behaviour -- KLU does not check it -- '
+     'so the wrapper must never pass one; singular => ArithmeticError with '
      'singularity a symbolic boolean per matrix), all call sequences <= 3: a result without NaN was computed with factors of the '
      'current matrix, singular => all-NaN, bounded retries; real ImplicitIter.step / PFlow.nr_step announce every Jacobian '
      'rebuild to the solver; ipadd and rebuild accumulation of the real System.j_update agree entry-wise at a symbolic operating '
@@ -132,7 +136,8 @@ prop('C17', 'other',
      '(arbitrary mismatch sequences, NaN flags, sub-routine outcomes): every exit of PFlow.nr_solve/run, TDS.test_init, TDS.run and '
      'EIG.run on an unsolved power flow, System.setup with failed links and andes.main.run exit-code aggregation; success implies '
      'the residual test passed on the last evaluated iterate, every failure returns False with a raised exit code and no '
-     'exception. Step-level facts are in C04/C06, the singular-matrix path in C16.',
+     'exception; test_init on residual vectors with not-a-number entries never reports success. Step-level facts are in C04/C06, the '
+     'singular-matrix path in C16.',
      'NaN modelled through the flag of the isnan test (comparisons with a flagged value are false); file parsing failures and NaN '
      'propagation inside numpy/C outside; multi-case runs without pool lose exit codes (listed known finding).',
      'bounded symbolic execution of the real control flow over nondeterministic stubs', 'DESIGN.md 3/C17')
@@ -185,8 +190,9 @@ prop('C14', 'model_checking',
      'TDS.init_resume re-establishes the C06 loop invariant with the event pointer unmoved, positive progress and the fixed step '
      'respected, so by the C06 induction events are neither lost nor repeated and stamps keep increasing across an interruption '
      '(at, before or after an event); thorough: bounded split-vs-unsplit cross-check; System.reset + setup re-creates addresses and '
-     'names and the repeated power flow reproduces the solution.',
-     'NOT covered (not encodable): dill snapshots, fix_view_arrays after unpickling, continuation in another process; trajectory '
+     'names and the repeated power flow reproduces the solution; the real fix_view_arrays re-attaches every internal variable array '
+     'of every model (arrays detached the way unpickling leaves them, symbolic tags in the DAE arrays).',
+     'NOT covered (not encodable): the dill serialisation itself, continuation in another process; trajectory '
      'equality up to discretisation error.',
      'bounded symbolic execution of the real resume code + z3 invariant check', 'DESIGN.md 3/C14')
 
@@ -202,13 +208,16 @@ prop('C07', 'other',
      'symbolic execution of the real residual assembly (pysym) + z3 identity check against a textbook oracle', 'DESIGN.md 3/C07')
 
 prop('C05', 'other',
-     'PARTIAL (per model, devices in service). For every dynamically initialised model of the tree the real initialisation order (init_seq '
+     'PARTIAL (per model; devices in service and arbitrary 0/1 statuses). For every dynamically initialised model of the tree the real initialisation order (init_seq '
      'of the generated module; declared initialisers, services, equations through an independent parser; limiter/comparison flags; '
      'iterative groups as symbols constrained by their v_iter equations) is executed over z3 terms, and z3 decides for ALL parameter and '
      'power-flow values that every differential right-hand side and every algebraic mismatch of the model vanishes at the initial '
-     'point (829 of 943 obligations over 73 models, incl. GENCLS with its complex log/exp chain and most of GENROU, all TGOV/IEEEG/HYGOV '
-     'governors, DC/AC/ST exciters, PSS, renewable and DG models). A refutation is replayed numerically on the generated code (pycode) and '
-     'reported only if the residual reproduces. test_init verdict <=> residual is in C17.',
+     'point, and that the bus injection of a device that replaces a static generator equals its share p0s*gammap, q0s*gammaq of the '
+     'power-flow injection (1641 of 1902 obligations over 73 models and two status scenarios, incl. GENCLS with its complex log/exp chain '
+     'and most of GENROU, all TGOV/IEEEG/HYGOV '
+     'governors, DC/AC/ST exciters, PSS, renewable and DG models). A refutation (or an unknown on a claimed obligation, at one generic '
+     'point) is replayed numerically on the generated code (pycode) and reported only if the residual reproduces. test_init verdict <=> '
+     'residual is in C17.',
      'NOT decided: obligations needing a premise about data (gate selection in HVG/LVG blocks, turbine power fractions, reference '
      'parameters) or about another device beyond the generic link facts -- listed per variable in the evidence as undecided; offline '
      'devices; bus-injection hand-over and gammap/gammaq split at system level (C07 has the SMIB instance); drift of an undisturbed '
